@@ -19,13 +19,53 @@ class SymSparse(_sps.spmatrix):
         d = _np.asarray(dense, dtype=object)
         if d.ndim == 1:
             d = d.reshape(1, -1)
-        self.A_ = d.view(SymArr)
+        self._A = d.view(SymArr)
         self.format = fmt if fmt in ("csr", "csc", "coo", "dia", "bsr", "lil") else "csr"
         if mask is None:
             mask = _np.frompyfunc(lambda v: not (isinstance(v, (int, float, _np.number)) and v == 0), 1, 1)(
                 d).astype(bool) if d.size else _np.zeros(d.shape, dtype=bool)
-        self.M_ = _np.asarray(mask, dtype=bool).reshape(d.shape)
+        self._M = _np.asarray(mask, dtype=bool).reshape(d.shape)
+        self._pend = {}
         self.maxprint = 50
+
+    # dense store, with write-back of pending compressed-array assignments
+    @property
+    def A_(self):
+        if self._pend:
+            self._flush()
+        return self._A
+
+    @property
+    def M_(self):
+        if self._pend:
+            self._flush()
+        return self._M
+
+    def _flush(self):
+        """A.indices = ..; A.data = ..; A.indptr = ..  (in-place restructuring by porepy)."""
+        pend, self._pend = self._pend, {}
+        data, indices, indptr = self._compressed_raw()
+        data = pend.get("data", data)
+        indices = _np.asarray(unlift(_np.asarray(pend.get("indices", indices)))).astype(int)
+        indptr = _np.asarray(unlift(_np.asarray(pend.get("indptr", indptr)))).astype(int)
+        data = _np.asarray(data, dtype=object)
+        if len(indices) != len(data) or indptr[-1] != len(data):
+            raise ValueError("inconsistent compressed arrays assigned to SymSparse")
+        shape = self._A.shape
+        csc = self.format == "csc"
+        D = _np.empty(shape, dtype=object)
+        D.fill(0)
+        M = _np.zeros(shape, dtype=bool)
+        nmaj = shape[1] if csc else shape[0]
+        if len(indptr) != nmaj + 1:
+            raise ValueError("indptr of wrong length assigned to SymSparse")
+        for i in range(nmaj):
+            for k in range(indptr[i], indptr[i + 1]):
+                r, c = (indices[k], i) if csc else (i, indices[k])
+                D[r, c] = D[r, c] + data[k] if M[r, c] else data[k]
+                M[r, c] = True
+        self._A = D.view(SymArr)
+        self._M = M
 
     # ---- basic protocol
     @property
@@ -143,7 +183,12 @@ class SymSparse(_sps.spmatrix):
 
     # ---- compressed views (derived; pattern = structural mask)
     def _compressed(self):
-        A, M = (self.A_, self.M_) if self.format != "csc" else (self.A_.T, self.M_.T)
+        if self._pend:
+            self._flush()
+        return self._compressed_raw()
+
+    def _compressed_raw(self):
+        A, M = (self._A, self._M) if self.format != "csc" else (self._A.T, self._M.T)
         indptr = [0]
         indices = []
         data = []
@@ -159,12 +204,24 @@ class SymSparse(_sps.spmatrix):
 
     @property
     def data(self):
-        return self._compressed()[0]
+        d = self._compressed()[0].view(_DataView)
+        d._owner = self
+        return d
 
     @data.setter
     def data(self, v):
+        if "indices" in self._pend or "indptr" in self._pend:
+            self._pend["data"] = v
+            return
+        self._write_data(v)
+
+    def _write_data(self, v):
         A, M = (self.A_, self.M_) if self.format != "csc" else (self.A_.T, self.M_.T)
         v = _np.asarray(v, dtype=object).ravel()
+        if len(v) != int(M.sum()):
+            # structure changes: the new indices/indptr follow (merge_matrices order)
+            self._pend["data"] = v
+            return
         k = 0
         for i in range(A.shape[0]):
             for j in _np.flatnonzero(M[i]):
@@ -175,9 +232,19 @@ class SymSparse(_sps.spmatrix):
     def indices(self):
         return self._compressed()[1]
 
+    @indices.setter
+    def indices(self, v):
+        self._pend["indices"] = v
+
     @property
     def indptr(self):
         return self._compressed()[2]
+
+    @indptr.setter
+    def indptr(self, v):
+        self._pend["indptr"] = v
+        if "indices" in self._pend:
+            self._flush()
 
     @property
     def row(self):
@@ -337,6 +404,20 @@ class SymSparse(_sps.spmatrix):
     __str__ = __repr__
 
 
+class _DataView(SymArr):
+    """.data of a SymSparse: in-place writes go back to the owning matrix."""
+
+    _owner = None
+
+    def __setitem__(self, key, val):
+        super().__setitem__(key, val)
+        if self._owner is not None:
+            self._owner._write_data(_np.asarray(self))
+
+    def __array_finalize__(self, obj):
+        self._owner = None
+
+
 def _tfmt(f):
     return {"csr": "csc", "csc": "csr"}.get(f, f)
 
@@ -431,6 +512,12 @@ class SpsProxy:
 
     def _cs(self, fmt, real, arg1, shape=None, dtype=None, copy=False):
         if Session.active:
+            if isinstance(arg1, tuple) and len(arg1) == 2 and all(
+                    isinstance(x, (int, _np.integer)) for x in arg1):
+                # empty matrix created inside a symbolic session: keep it liftable
+                D = _np.empty(arg1, dtype=object)
+                D.fill(0)
+                return SymSparse(D, fmt, _np.zeros(arg1, dtype=bool))
             if isinstance(arg1, SymSparse):
                 return SymSparse(arg1.A_.copy() if copy else arg1.A_, fmt, arg1.M_)
             if isinstance(arg1, _np.ndarray) and arg1.dtype == object:
@@ -440,12 +527,15 @@ class SpsProxy:
             if isinstance(arg1, tuple) and len(arg1) in (2, 3) and is_objarr(_np.asarray(arg1[0]) if not isinstance(arg1[0], _np.ndarray) else arg1[0]):
                 data = _np.asarray(arg1[0], dtype=object)
                 if not has_sym(data):
-                    return real((unlift(data),) + tuple(arg1[1:]), shape=shape)
+                    rest = tuple(_np.asarray(unlift(_np.asarray(x))).astype(int) if not isinstance(x, tuple)
+                                 else x for x in arg1[1:])
+                    return real((unlift(data),) + rest, shape=shape)
                 if len(arg1) == 2:
                     rows, cols = arg1[1]
                     rows, cols = _np.asarray(rows), _np.asarray(cols)
                 else:
-                    indices, indptr = _np.asarray(arg1[1]), _np.asarray(arg1[2])
+                    indices = _np.asarray(unlift(_np.asarray(arg1[1]))).astype(int)
+                    indptr = _np.asarray(unlift(_np.asarray(arg1[2]))).astype(int)
                     major = _np.repeat(_np.arange(len(indptr) - 1), _np.diff(indptr))
                     rows, cols = (major, indices) if fmt != "csc" else (indices, major)
                 if shape is None:
